@@ -1078,7 +1078,48 @@ func c16R10(p *core.Program, r *core.Report) {
 							judge(site.Common().Args[idx], site.Instr.Block(), depth+1)
 						}
 					}
+				case *ssa.Extract:
+					// one result of a helper of the package: judged at each of its returns
+					if c, ok := x.Tuple.(*ssa.Call); ok {
+						if g := c.Call.StaticCallee(); g != nil && g.Blocks != nil && core.FuncPkgPath(g) == core.FuncPkgPath(fn) {
+							for _, ret := range core.Returns(g) {
+								if x.Index < len(ret.Results) {
+									judge(ret.Results[x.Index], ret.Block(), depth+1)
+								}
+							}
+							return
+						}
+					}
+					bad = append(bad, canonShort(v))
 				case *ssa.Phi:
+					// a scheme variable paired with a flag variable: `scheme, ok := v, IsValidScheme(v)` … `if ok`:
+					// on the edge where the scheme is v the flag is IsValidScheme(v), and the use is under the flag
+					if f.enum == "urnscheme" && at != nil {
+						okAll := true
+						for i, e := range x.Edges {
+							if sc, isC := core.ConstString(e); isC && sc != "" {
+								continue
+							}
+							edgeOK := false
+							for _, ce := range core.ControllingConds(at) {
+								flag, isPhi := ce.Cond.(*ssa.Phi)
+								if !isPhi || !ce.Taken || flag.Block() != x.Block() || i >= len(flag.Edges) {
+									continue
+								}
+								if c, ok := flag.Edges[i].(*ssa.Call); ok {
+									if o := core.CalleeObj(&c.Call); o != nil && strings.HasSuffix(core.ObjName(o), "urns.IsValidScheme") && len(c.Call.Args) == 1 && canon(c.Call.Args[0]) == canon(e) {
+										edgeOK = true
+									}
+								}
+							}
+							if !edgeOK {
+								okAll = false
+							}
+						}
+						if okAll {
+							return
+						}
+					}
 					// defaulted: some edge carries a non-empty constant and comes from the `other == ""` branch
 					defaulted := false
 					for i, e := range x.Edges {
